@@ -48,18 +48,20 @@ type idprespSess struct {
 	NidFmt  bool     `json:"nidfmt"`
 	Subj    bool     `json:"subj"`
 	Content string   `json:"content"`
+	Nid     string   `json:"nid"` // "empty": the session has no name identifier
 }
 type idprespIn struct {
-	Kind  string       `json:"kind"`
-	Alias bool         `json:"alias"`
-	URL   string       `json:"url"`
-	Idx   string       `json:"idx"`
-	IIPos string       `json:"iipos"`
-	Reg   [][]idpreqEP `json:"reg"`
-	Svc   []idprespSvc `json:"svc"`
-	Enc   bool         `json:"enc"`
-	Sess  idprespSess  `json:"sess"`
-	Idp   struct {
+	Kind    string       `json:"kind"`
+	Alias   bool         `json:"alias"`
+	ReqSubj bool         `json:"reqsubj"`
+	URL     string       `json:"url"`
+	Idx     string       `json:"idx"`
+	IIPos   string       `json:"iipos"`
+	Reg     [][]idpreqEP `json:"reg"`
+	Svc     []idprespSvc `json:"svc"`
+	Enc     bool         `json:"enc"`
+	Sess    idprespSess  `json:"sess"`
+	Idp     struct {
 		Key    string `json:"key"`
 		Method string `json:"method"`
 		Inter  int    `json:"inter"`
@@ -211,6 +213,9 @@ func idprespSession(sh idprespSess, label string, rng *rand.Rand) (*saml.Session
 	}
 	d := func(s string) string { return idprespDecorate(s, sh.Content, rng) }
 	refs := map[string]string{"NameID": d(label + "-nameid@idp.example.com")}
+	if sh.Nid == "empty" {
+		refs["NameID"] = ""
+	}
 	s := &saml.Session{ID: label + "-sid", Index: label + "-sidx", NameID: refs["NameID"],
 		CreateTime: time.Date(2024, 3, 10, 9, 0, 0, 0, time.UTC), ExpireTime: time.Date(2034, 3, 10, 9, 0, 0, 0, time.UTC)}
 	set := func(ref string, dst *string, val string) {
